@@ -372,7 +372,7 @@ def check(ctx):
         reg = hg.reachable(gs.edge_targets(at), stop_nodes=[head]) if at and head is not None else {m.bb}
         ctx.ob("limit", "handle_graft: full mesh => no insertion", m.bb not in reg, m.loc(), "peers.insert unreachable from the len >= mesh_n_high edge within the iteration")
         # negative score refusal also PRUNEs
-        neg_true = gs.guard(hg, lambda c, r, l: l == "true" and neg_false(c, r, "false"))
+        neg_true = gs.frontier(hg, gs.guard(hg, lambda c, r, l: l == "true" and neg_false(c, r, "false"), head), head)
         got = lib.count_range(hg, gs.edge_targets(neg_true), [head], lib.bbs(prune_ins)) if neg_true and head is not None else None
         ctx.ob("eligible", "handle_graft: a negative-score GRAFT is answered with a PRUNE entry", got == (1, 1), m.loc(), "to_prune_topics.insert on the below_zero edge: %s" % (got,))
         # every queued topic is turned into a PRUNE for this peer
@@ -510,7 +510,7 @@ def check(ctx):
                     return False
                 small, large, strict = rel
                 return (not strict) and is_zero_f(small) and score_of(prog, cl, gs.expand(cl, large), lambda a: a[0] == "arg" and a[1] == 2)
-            ne, nn = gs.guard(cl, neg), gs.guard(cl, nonneg)
+            ne, nn = gs.frontier(cl, gs.guard(cl, neg)), gs.guard(cl, nonneg)
             ok = bool(falses) and bool(trues) and bool(ne) and bool(nn) and all(cl.must_pass_edges(s.bb, nn) for s in trues) and \
                 all(lib.count_range(cl, [t], cl.return_blocks(), lib.bbs(trues)) == (0, 0) for _, t in ne)
             msg = "`true` (keep) only on score >= 0.0; score < 0.0 => `false` (drop) on every path: %s" % ok
